@@ -187,6 +187,13 @@ pub fn run_c09_b(ctx: &Ctx) -> Outcome {
                 c: rng.i64_boundary(),
             };
             let replay = json!({"part": "b", "ask": format!("{a:?}")});
+            // every fourth request finds its prepared statement evicted at the node: the EXECUTE / BATCH that is
+            // re-sent after UNPREPARED + re-preparation is the frame the handler sees, and it must say the same
+            let evicted = rng.chance(1, 4) && matches!(a.api, "execute_unpaged" | "batch" | "execute_single_page");
+            if evicted {
+                cluster.node(0).evict_all_user();
+                o.class("frame-re-sent-after-UNPREPARED");
+            }
             let b_val: MaybeUnset<&str> = if a.b_unset { MaybeUnset::Unset } else { MaybeUnset::Set(a.b.as_str()) };
             let vals = (a.op as i64, a.a, b_val, a.c);
             let res: Result<(), String> = match a.api {
@@ -332,7 +339,7 @@ pub fn run_c09_b(ctx: &Ctx) -> Outcome {
         }
         cluster.shutdown();
     });
-    for c in ["api:query_unpaged", "api:execute_unpaged", "api:batch", "api:query_single_page", "api:execute_single_page", "paging-state-returned-verbatim"] {
+    for c in ["api:query_unpaged", "api:execute_unpaged", "api:batch", "api:query_single_page", "api:execute_single_page", "paging-state-returned-verbatim", "frame-re-sent-after-UNPREPARED"] {
         o.require_class(c);
     }
     o
@@ -491,7 +498,46 @@ pub fn run_c19_c(ctx: &Ctx) -> Outcome {
             let mut expected: BTreeSet<uuid::Uuid> = cluster.nodes().iter().map(|n| n.host_id).collect();
             let mut refreshes: Vec<tokio::task::JoinHandle<Result<(), String>>> = Vec::new();
             let mut removed_any = false;
-            for step in 0..burst {
+            let mut last_change = 0u64;
+            // every other round is a DIRECTED hand-off: the consumer is made busy (it waits for the pool of a node
+            // that is slow to accept), a full fetch is requested meanwhile and stays pending, then a node leaves and
+            // the REMOVED_NODE event triggers a partial topology fetch that is merged into the pending update
+            let directed = round % 2 == 1;
+            if directed {
+                let victim = cluster.add_node(NodeSpec::simple("dc1", "r9", vec![500 + round as i64]), true).await;
+                expected.insert(victim.host_id);
+                cluster.push_event(&Event::TopologyChange { change: "NEW_NODE".into(), addr: std::net::IpAddr::V4(victim.ip), port: MAIN_PORT as i32 });
+                let _ = tokio::time::timeout(Duration::from_secs(20), session.refresh_metadata()).await;
+                let slow = cluster.add_node(NodeSpec::simple("dc1", "r8", vec![700 + round as i64]), true).await;
+                slow.handshake_delay_ms.store(500 + r.below(400), std::sync::atomic::Ordering::SeqCst);
+                expected.insert(slow.host_id);
+                cluster.log().push(Ev::Note("members-changed".into()));
+                cluster.push_event(&Event::TopologyChange { change: "NEW_NODE".into(), addr: std::net::IpAddr::V4(slow.ip), port: MAIN_PORT as i32 });
+                // the consumer is busy once the slow node sees the first connection attempt
+                let (c, si) = (cluster.clone(), slow.idx);
+                let busy = cluster.wait_until(Duration::from_secs(5), move || c.log().snapshot().iter().any(|l| matches!(l.ev, Ev::Accept { node, .. } if node == si))).await;
+                let with_pending_full = r.chance(3, 4);
+                if with_pending_full {
+                    let s2 = session.clone();
+                    refreshes.push(tokio::spawn(async move { s2.refresh_metadata().await.map_err(|e| e.to_string()) }));
+                    // let that fetch finish: the control node goes quiet
+                    settle(cluster.log(), Duration::from_millis(40), Duration::from_secs(2), || false).await;
+                }
+                // the victim leaves; the event triggers a re-read of the peer list
+                expected.remove(&victim.host_id);
+                let members: Vec<usize> = cluster.nodes().iter().filter(|n| expected.contains(&n.host_id)).map(|n| n.idx).collect();
+                cluster.set_members(members);
+                last_change = cluster.log().push(Ev::Note("members-changed".into()));
+                cluster.stop_node(victim.idx, CloseHow::Fin);
+                cluster.push_event(&Event::TopologyChange { change: "REMOVED_NODE".into(), addr: std::net::IpAddr::V4(victim.ip), port: MAIN_PORT as i32 });
+                removed_any = true;
+                o.class(match (busy, with_pending_full) {
+                    (true, true) => "c:directed:node-left-while-full-fetch-pending-and-consumer-busy",
+                    (true, false) => "c:directed:node-left-while-consumer-busy",
+                    _ => "c:directed:consumer-not-seen-busy",
+                });
+            }
+            for step in 0..(if directed { 0 } else { burst }) {
                 // a burst of topology changes: new node(s) joining, announced or not by events.
                 // Some new nodes are slow to accept connections, so the consumer of the hand-off (the
                 // cluster worker, which waits for the new pools) is busy while further fetches complete
@@ -501,6 +547,7 @@ pub fn run_c19_c(ctx: &Ctx) -> Outcome {
                     n.handshake_delay_ms.store(40 + r.below(160), std::sync::atomic::Ordering::SeqCst);
                 }
                 expected.insert(n.host_id);
+                last_change = cluster.log().push(Ev::Note("members-changed".into()));
                 if with_events {
                     cluster.push_event(&Event::TopologyChange { change: "NEW_NODE".into(), addr: std::net::IpAddr::V4(n.ip), port: MAIN_PORT as i32 });
                     cluster.push_event(&Event::StatusChange { change: "UP".into(), addr: std::net::IpAddr::V4(n.ip), port: MAIN_PORT as i32 });
@@ -525,6 +572,7 @@ pub fn run_c19_c(ctx: &Ctx) -> Outcome {
                         expected.remove(&victim.host_id);
                         let members: Vec<usize> = nodes.iter().filter(|n| expected.contains(&n.host_id)).map(|n| n.idx).collect();
                         cluster.set_members(members);
+                        last_change = cluster.log().push(Ev::Note("members-changed".into()));
                         cluster.stop_node(victim.idx, CloseHow::Fin);
                         removed_any = true;
                         if with_events {
@@ -539,7 +587,7 @@ pub fn run_c19_c(ctx: &Ctx) -> Outcome {
             if removed_any {
                 o.class("c:node-left-during-burst");
             }
-            let key = fw::hash64(format!("{burst}:{with_events}:{seed}").as_bytes());
+            let key = fw::hash64(format!("{burst}:{with_events}:{seed}:{directed}").as_bytes());
             o.case(key, true);
             o.class(if with_events { "c:burst-with-events" } else { "c:burst-without-events" });
             // every refresh that was requested must be answered (bounded progress: 30 s watchdog while the nodes answer within 200 ms)
@@ -550,6 +598,68 @@ pub fn run_c19_c(ctx: &Ctx) -> Outcome {
                     Ok(Err(join)) => o.violation("c19c:refresh-never-answered", format!("concurrent refresh_metadata() call {i} of {n_ref} was dropped unanswered (the call panicked: {join})"), json!({"part": "c", "burst": burst, "events": with_events, "seed": seed})),
                     Ok(Ok(Err(e))) => o.violation("c19c:refresh-failed", format!("concurrent refresh_metadata() call {i} failed: {e}"), json!({"part": "c", "burst": burst, "events": with_events, "seed": seed})),
                     Ok(Ok(Ok(()))) => o.class("c:concurrent-refresh-answered"),
+                }
+            }
+            // Before asking again: once the driver has gone quiet (no frame to or from any node for 400 ms, every
+            // requested refresh answered), the published state must be that of the LATEST peer list it fetched -
+            // asserted when that fetch was served after the last membership change (then it is the final topology).
+            {
+                let log = cluster.log().clone();
+                let t0 = std::time::Instant::now();
+                let (mut last, mut last_at) = (log.counter(), std::time::Instant::now());
+                let quiet = loop {
+                    tokio::time::sleep(Duration::from_millis(5)).await;
+                    let c = log.counter();
+                    if c != last {
+                        last = c;
+                        last_at = std::time::Instant::now();
+                    }
+                    if last_at.elapsed() > Duration::from_millis(400) {
+                        break true;
+                    }
+                    if t0.elapsed() > Duration::from_secs(10) {
+                        break false;
+                    }
+                };
+                // the control connection prepares its metadata queries once and then EXECUTEs them by id
+                let peers_ids: Vec<Vec<u8>> = cluster.nodes().iter().flat_map(|n| n.prepared.lock().unwrap().iter().filter(|(_, d)| d.query.contains("system.peers")).map(|(id, _)| id.clone()).collect::<Vec<_>>()).collect();
+                let last_peers_fetch = log
+                    .snapshot()
+                    .iter()
+                    .filter_map(|l| match &l.ev {
+                        Ev::Recv { request, .. } => match &**request {
+                            crate::wire::request::Request::Query { query, .. } if query.contains("system.peers") => Some(l.seq),
+                            crate::wire::request::Request::Execute { id, .. } if peers_ids.contains(id) => Some(l.seq),
+                            _ => None,
+                        },
+                        _ => None,
+                    })
+                    .max()
+                    .unwrap_or(0);
+                if quiet && last_peers_fetch > last_change {
+                    // pacing only: nothing further is fetched, so waiting cannot repair a stale state
+                    let t1 = std::time::Instant::now();
+                    let mut got: BTreeSet<uuid::Uuid>;
+                    loop {
+                        got = session.get_cluster_state().get_nodes_info().iter().map(|n| n.host_id).collect();
+                        if got == expected || t1.elapsed() > Duration::from_secs(3) {
+                            break;
+                        }
+                        tokio::time::sleep(Duration::from_millis(20)).await;
+                    }
+                    if got != expected {
+                        o.violation(
+                            "c19c:published-state-not-latest-fetched-topology",
+                            format!("the driver went quiet after fetching the final peer list ({} nodes), but the published cluster state names {} nodes", expected.len(), got.len()),
+                            json!({"part": "c", "burst": burst, "events": with_events, "seed": seed,
+                                "missing": expected.difference(&got).map(|u| u.to_string()).collect::<Vec<_>>(), "stale": got.difference(&expected).map(|u| u.to_string()).collect::<Vec<_>>()}),
+                        );
+                    } else {
+                        o.class("c:quiescent-state-reflects-latest-fetch");
+                    }
+                } else {
+                    if std::env::var("C19_DEBUG").is_ok() { eprintln!("quiet={quiet} last_peers_fetch={last_peers_fetch} last_change={last_change} counter={}", log.counter()); }
+                    o.class("c:last-fetch-predates-last-change-or-not-quiet(not-asserted)");
                 }
             }
             // (run as a task of its own: if the driver drops the request unanswered the call panics inside the driver)
@@ -583,7 +693,7 @@ pub fn run_c19_c(ctx: &Ctx) -> Outcome {
         });
     }
     o.sample(json!({"part": "c", "rounds": rounds}));
-    for c in ["c:burst-with-events", "c:burst-without-events", "c:state-reflects-latest-topology", "c:concurrent-refresh-answered", "c:node-left-during-burst"] {
+    for c in ["c:burst-with-events", "c:burst-without-events", "c:state-reflects-latest-topology", "c:concurrent-refresh-answered", "c:node-left-during-burst", "c:quiescent-state-reflects-latest-fetch", "c:directed:node-left-while-full-fetch-pending-and-consumer-busy"] {
         o.require_class(c);
     }
     o
